@@ -234,7 +234,7 @@ theorem interactive_resumes_after_interrupt (fuel : Nat) (s : St) (ex : Bool) (l
       readEvalLoop true fuel s ex (.cmds l :: rest) =
         readEvalLoop true fuel
           (match e with | some e => { (execStmts fuel s l).1 with status := e } | none => (execStmts fuel s l).1)
-          true rest) ∧
+          (ex || !l.isEmpty) rest) ∧
     ((execStmts fuel s l).2 = .break_ (.exit e) →
       readEvalLoop true fuel s ex (.cmds l :: rest) = ((execStmts fuel s l).1, .break_ (.exit e))) := by
   constructor
@@ -270,7 +270,7 @@ theorem loops_agree_without_interrupt (fuel : Nat) : ∀ (script : List ScLine) 
     cases r with
     | continue_ =>
       simp only [if_true]
-      exact ih a true (fun l hl' => h1 l (by simp [hl'])) (fun t l hl' => h2 t l (by simp [hl']))
+      exact ih a _ (fun l hl' => h1 l (by simp [hl'])) (fun t l hl' => h2 t l (by simp [hl']))
     | outOfFuel => simp
     | break_ d =>
       cases d with
@@ -382,6 +382,7 @@ theorem interactive_shell_error_consequences (fuel : Nat) (s : St) (ex : Bool) (
       simp [execStmts, execStmt, execSimple, handleExpansionError, h]
     have := (interactive_resumes_after_interrupt fuel s ex _ rest (some ERROR)).1 (by rw [hx])
     rw [this, hx]
+    simp
   · have hx : execStmts fuel s (.plain (.mk .error t r a) :: more) = (s, .break_ (.exit (some ERROR))) := by
       simp [execStmts, execStmt, execSimple, handleExpansionError, h]
     have := (interactive_resumes_after_interrupt fuel s ex _ rest (some ERROR)).2 (by rw [hx])
@@ -392,6 +393,7 @@ theorem interactive_shell_error_consequences (fuel : Nat) (s : St) (ex : Bool) (
       simp only [execStmts, execStmt, hb]
     have := (interactive_resumes_after_interrupt fuel s ex _ rest none).1 (by rw [hx])
     rw [this, hx]
+    simp
 
 /-- Where a text that does not parse / cannot be read is met, and what that does to a non-interactive shell
     (`Handle for parser::Error`, status column generated from handle.rs): in the main input, in `eval`, in a
@@ -408,6 +410,24 @@ theorem syntax_and_read_errors_by_place (fuel : Nat) (s : St) (ex : Bool) (rest 
   refine ⟨by simp [readEvalLoop, handleParserError], by simp [execBody, handleParserError],
     by simp [execBody, handleParserError], by simp [execBody, handleParserError], by simp [handleParserError],
     by decide, rfl, rfl⟩
+
+/-! ### coverage pass: empty inputs, reports without a built-in frame -/
+
+/-- An input that holds no command (`eval ''`, `. empty_file`, and the main script itself): `read_eval_loop_impl`
+    returns at once with `executed = false` and sets `$?` to 0 — whatever it was, so errexit cannot fire on it; after
+    at least one command the status is left alone.  An error report made while NO built-in is running (empty stack,
+    or only non-built-in frames) never interrupts the shell. -/
+theorem empty_input_and_frameless_report (fuel : Nat) (s : St) (cs acs : Option Nat) (stack : List Frame)
+    (h : ∀ f ∈ stack, ∀ b, f ≠ .builtin b) :
+    execSimple fuel s (.mk (.ok cs) (.builtin .special .evalEmpty) .none (.ok acs)) =
+      ({ s with status := 0 }, .continue_) ∧
+    readEvalLoop false fuel s false [] = ({ s with status := 0 }, .continue_) ∧
+    readEvalLoop false fuel s true [] = (s, .continue_) ∧
+    reportDivert [] = .continue_ ∧ reportDivert stack = .continue_ := by
+  refine ⟨?_, by simp [readEvalLoop, SUCCESS], by simp [readEvalLoop], rfl, ?_⟩
+  · simp [execSimple, execTarget, execBody, St.applyErrexit, SUCCESS, St.pop, St.push]
+  · have : currentBuiltin stack = none := (current_builtin_none_iff stack).2 h
+    simp [reportDivert, this]
 
 /-! ### non-vacuity -/
 
